@@ -45,6 +45,8 @@
 (* fl.itl = TRUE: items() iterates a list of all entries (proposed         *)
 (*          repair); FALSE = the tree as it is: items() iterates           *)
 (*          _v2b_dict, entries with a repeated Values string collapse      *)
+(* fl.once = TRUE: what items() iterates is a one-shot iterator (zip):     *)
+(*          only the first items() call of an object lists anything        *)
 (***************************************************************************)
 EXTENDS ValueMap
 
@@ -53,14 +55,14 @@ Ex(n) == [t |-> "exc", lo |-> 0, hi |-> 0, x |-> n]
 
 Legacy == [trunc |-> FALSE, guard |-> FALSE, oct0 |-> FALSE,
            skip |-> TRUE, uncl |-> TRUE, vbx |-> TRUE, len |-> {"nl"},
-           itl |-> FALSE]
+           itl |-> FALSE, once |-> FALSE]
 (* the tree as it is (IndexError / RecursionError repaired) *)
 AsIs == [trunc |-> TRUE, guard |-> TRUE, oct0 |-> FALSE,
          skip |-> TRUE, uncl |-> TRUE, vbx |-> TRUE, len |-> {"nl"},
-         itl |-> FALSE]
+         itl |-> FALSE, once |-> FALSE]
 Fixed == [trunc |-> TRUE, guard |-> TRUE, oct0 |-> TRUE,
           skip |-> TRUE, uncl |-> TRUE, vbx |-> TRUE, len |-> {},
-          itl |-> TRUE]
+          itl |-> TRUE, once |-> FALSE]
 
 (* the entry as the integer reader of variant fl sees it: a malformed     *)
 (* entry of a class it is too lenient for reads as the well-formed entry  *)
@@ -217,13 +219,15 @@ ImplItems(st, fl) == IF fl.itl THEN st.il ELSE st.vb
 ImplEvent(e, fl, Vseq, Q) ==
   LET c == Create(e, fl) IN
   IF c.t = "exc"
-  THEN [e EXCEPT !.ctor = c.x, !.tv = << >>, !.tb = << >>, !.items = << >>]
+  THEN [e EXCEPT !.ctor = c.x, !.tv = << >>, !.tb = << >>, !.items = << >>,
+                 !.items2 = << >>]
   ELSE [e EXCEPT !.ctor = "ok",
                  !.tv = [j \in DOMAIN Vseq |->
                            LET r == ImplTovalues(c.st, Vseq[j], fl) IN
                            [lo |-> Vseq[j], hi |-> Vseq[j], ok |-> r.ok, s |-> r.s]],
                  !.tb = [j \in DOMAIN Q |-> ImplTobinary(c.st, Q[j], fl)],
-                 !.items = ImplItems(c.st, fl)]
+                 !.items = ImplItems(c.st, fl),
+                 !.items2 = IF fl.once THEN << >> ELSE ImplItems(c.st, fl)]
 
 (* drift of an observed event against the code-shaped machine, variant fl  *)
 (* (never a verdict).  Resolved bounds of the machine are its break points *)
@@ -249,4 +253,8 @@ Drift(e, fl) ==
               LET it == ImplItems(c.st, fl) IN
               /\ Len(e.items) = Len(it)
               /\ \A j \in DOMAIN e.items : SameBin(e.items[j], it[j]))
+       \cup F("items.second",
+              LET it == IF fl.once THEN << >> ELSE ImplItems(c.st, fl) IN
+              /\ Len(e.items2) = Len(it)
+              /\ \A j \in DOMAIN e.items2 : SameBin(e.items2[j], it[j]))
 =============================================================================
